@@ -40,6 +40,7 @@ VARNAMES = ['a', 'b1', 'c_2', "d'", 'E.x']
 KEYWORDISH = ['mode', 'add', 'ids', 'ver', 'nvars', 'dd', 'nnodes',
               'rootids', 'permids', 'T']
 EXTRA = ['u0', 'u1', 'u2']
+NUMERIC = ['3', '7', '10', '0', '42', '5', '11']
 
 
 def plan(tier, seed):
@@ -58,6 +59,11 @@ def write_file(case, path):
     for k_ in range(n):
         if (kw >> k_) & 1:
             nm[k_] = KEYWORDISH[(kw + 2 * k_) % (len(KEYWORDISH) - 1)]
+    # names that are numbers (dumps of managers without names)
+    numeric = case.get('numeric', 0)
+    for k_ in range(n):
+        if (numeric >> k_) & 1:
+            nm[k_] = NUMERIC[(numeric + k_) % len(NUMERIC)]
     if len(set(nm)) < n:
         nm = list(VARNAMES[:n])
     nm = tuple(nm)
@@ -222,9 +228,13 @@ def check_case(case, cwd):
             pass
     bdd.__class__ = Quiet
     n = len(nm)
-    require(list(sorted(bdd.vars, key=bdd.vars.get)) == list(decl),
-            'dddmp.vars_differ',
-            dict(got=sorted(bdd.vars, key=bdd.vars.get), want=decl))
+    # (the parser turns names that are numbers into `int`)
+    got_names = sorted(bdd.vars, key=bdd.vars.get)
+    require([str(x) for x in got_names] == list(decl),
+            'dddmp.vars_differ', dict(got=got_names, want=decl))
+    key_of = {str(x): x for x in got_names}
+    nm = tuple(key_of.get(x, x) for x in nm)
+    decl = [key_of.get(x, x) for x in decl]
     for r in bdd.roots:
         require(isinstance(r, int) and abs(r) in bdd._succ,
                 'dddmp.root_not_a_node', dict(r=r))
@@ -261,6 +271,7 @@ def run_random(spec, out):
             varinfo=draw(st.sampled_from([0, 1, 3])),
             version=draw(st.sampled_from([1, 2])),
             kw=draw(st.sampled_from([0, 0, 0, 1, 2, 3, 5, 9, 31])),
+            numeric=draw(st.sampled_from([0, 0, 0, 1, 2, 3, 6, 12, 31])),
             poison=draw(st.sampled_from(
                 [1, 2, 3, 4, 5, 7, 11, 14, 20, 27] if spec.get('poison_only')
                 else [0, 0, 1, 2, 3, 4, 7, 11, 14])),
